@@ -30,6 +30,16 @@ def handle(r: dict) -> object:
         if op == "spec":
             ss = SpecifierSet(r["s"])
             return ["ok", [ss.contains(Version(v), prereleases=True) for v in r["vs"]]]
+        if op == "specv":
+            # like "spec", but a probe that is not a version answers null instead of failing the request
+            ss = SpecifierSet(r["s"])
+            out = []
+            for v in r["vs"]:
+                try:
+                    out.append(ss.contains(Version(v), prereleases=True))
+                except InvalidVersion:
+                    out.append(None)
+            return ["ok", out]
         if op == "specok":
             SpecifierSet(r["s"])
             return ["ok"]
